@@ -305,6 +305,24 @@ def parse_set_cookie_headers(headers: Sequence[str]) -> list[tuple[str, Morsel[s
             i = match.end(0)
             lower_key = key.lower()
 
+            if (
+                lower_key == "expires"
+                and value
+                and " " not in value
+                and morsel_seen
+                and i < n
+                and header[i - 1] != ";"
+            ):
+                # A date in a shape the pattern does not know (no day of the
+                # week, another zone name) was cut at its first space: the
+                # value of an attribute ends at the next ";" (RFC 6265 5.2)
+                # and the date parser finds the date in what is between.
+                end = header.find(";", i)
+                if end < 0:
+                    end = n
+                value = f"{value} {header[i:end].strip()}".strip()
+                i = end + 1
+
             if key[0] == "$":
                 if not morsel_seen:
                     # We ignore attributes which pertain to the cookie
